@@ -124,6 +124,12 @@ pub fn der(path: &Path) -> Vec<u8> {
 impl RawPeer {
     /// `identity`: (cert der, key der) presented to the server, if any; `ca`: trusted root
     pub async fn connect(addr: SocketAddr, ca: &Path, identity: Option<(Vec<u8>, Vec<u8>)>) -> Result<RawPeer> {
+        RawPeer::connect_with(addr, ca, identity, None).await
+    }
+
+    /// `stream_window`: per-stream receive window granted to the server (Some(0) = a peer that never
+    /// lets the server write anything on the streams it opens)
+    pub async fn connect_with(addr: SocketAddr, ca: &Path, identity: Option<(Vec<u8>, Vec<u8>)>, stream_window: Option<u32>) -> Result<RawPeer> {
         let mut roots = rustls::RootCertStore::empty();
         roots.add(&rustls::Certificate(der(ca)))?;
         let builder = rustls::ClientConfig::builder().with_safe_defaults().with_root_certificates(roots);
@@ -133,7 +139,14 @@ impl RawPeer {
         };
         crypto.alpn_protocols = vec![b"hq-29".to_vec()];
         let mut endpoint = quinn::Endpoint::client("0.0.0.0:0".parse().unwrap())?;
-        endpoint.set_default_client_config(quinn::ClientConfig::new(Arc::new(crypto)));
+        let mut cfg = quinn::ClientConfig::new(Arc::new(crypto));
+        if let Some(w) = stream_window {
+            let mut t = quinn::TransportConfig::default();
+            t.stream_receive_window(quinn::VarInt::from_u32(w));
+            t.keep_alive_interval(Some(std::time::Duration::from_secs(2)));
+            cfg.transport_config(Arc::new(t));
+        }
+        endpoint.set_default_client_config(cfg);
         let conn = endpoint.connect(addr, "localhost")?.await?;
         Ok(RawPeer { conn, _endpoint: endpoint })
     }
